@@ -14,7 +14,7 @@ MODULES = ["mirror.rs", "kjson.rs", "gen.rs", "print.rs", "checks.rs", "main.rs"
 
 # property -> [(group, [obligation prefixes that belong to the property])]
 GROUPS = {
-    "C01": [("e2e", ["e2e.members"]), ("name_lookup", ["process_key.member"]), ("descendant", ["process_descendant.preorder"]),
+    "C01": [("e2e", ["e2e.members"]), ("text_filter", ["text_filter.api_agree"]), ("text_arith", ["text_arith.api_agree"]), ("name_lookup", ["process_key.member"]), ("descendant", ["process_descendant.preorder"]),
             ("selectors", ["process_selectors.members"])],
     "C02": [("e2e", ["e2e.order"]), ("descendant", ["process_descendant.preorder"]), ("selectors", ["process_selectors.order", "process_selectors.members"])],
     "C03": [("e2e", ["e2e.path"]), ("pointer_text", ["Pointer::key.text", "Pointer::idx.text"]), ("name_lookup", ["process_key.path"]),
@@ -26,7 +26,7 @@ GROUPS = {
     "C10": [("regex", ["regex.match", "regex.search", "regex.no_panic"]), ("e2e_fn", ["e2e_fn.members", "e2e_fn.no_panic"])],
     "C11": [("arith", ["process_index.select", "process_slice.select", "process_index.no_panic", "process_slice.no_panic"]),
             ("text_arith", ["text_arith.members", "text_arith.order", "text_arith.no_panic"])],
-    "C15": [("e2e", ["e2e.view_independent"]), ("cmp_struct", ["eq.structural", "lt.order"])],
+    "C15": [("e2e", ["e2e.view_independent", "e2e.members", "e2e.order"]), ("text_filter", ["text_filter.api_agree"]), ("cmp_struct", ["eq.structural", "lt.order"])],
 }
 # Verus unit -> bounded groups that can produce a failing input for it
 CEX_GROUPS = {
